@@ -19,7 +19,8 @@ PROPS = {
         harnesses=[dict(name="VerifOptimizeFile", bounds=dict(quick=dict(CALLS=10), thorough=dict(CALLS=12)), opts=dict(unwind=300, workers=8)),
                    dict(name="VerifMergeCreateFile", bounds=dict(quick=dict(CALLS=10), thorough=dict(CALLS=12)), opts=dict(unwind=300, workers=8)),
                    dict(name="VerifMergeAppendFile", bounds=dict(quick=dict(CALLS=10), thorough=dict(CALLS=12)), opts=dict(unwind=300, workers=8)),
-                   dict(name="VerifMergeCreateZipFile", bounds=dict(quick=dict(CALLS=10), thorough=dict(CALLS=12)), opts=dict(unwind=300, workers=8))],
+                   dict(name="VerifMergeCreateZipFile", bounds=dict(quick=dict(CALLS=10), thorough=dict(CALLS=12)), opts=dict(unwind=300, workers=8)),
+                   dict(name="VerifWriteContextAbort", pkg=PD, opts=dict(unwind=300, workers=4))],
     ),
     "C02": dict(
         pkg=API,
@@ -29,7 +30,8 @@ PROPS = {
         harnesses=[dict(name="VerifOptimizeFile", bounds=dict(quick=dict(CALLS=10), thorough=dict(CALLS=12)), opts=dict(unwind=300, workers=8)),
                    dict(name="VerifMergeCreateFile", bounds=dict(quick=dict(CALLS=10), thorough=dict(CALLS=12)), opts=dict(unwind=300, workers=8)),
                    dict(name="VerifMergeAppendFile", bounds=dict(quick=dict(CALLS=10), thorough=dict(CALLS=12)), opts=dict(unwind=300, workers=8)),
-                   dict(name="VerifMergeCreateZipFile", bounds=dict(quick=dict(CALLS=10), thorough=dict(CALLS=12)), opts=dict(unwind=300, workers=8))],
+                   dict(name="VerifMergeCreateZipFile", bounds=dict(quick=dict(CALLS=10), thorough=dict(CALLS=12)), opts=dict(unwind=300, workers=8)),
+                   dict(name="VerifWriteContextAbort", pkg=PD, opts=dict(unwind=300, workers=4))],
     ),
     "C03": dict(
         pkg=API,
@@ -39,7 +41,8 @@ PROPS = {
         harnesses=[dict(name="VerifOptimizeFile", bounds=dict(quick=dict(CALLS=10), thorough=dict(CALLS=12)), opts=dict(unwind=300, workers=8)),
                    dict(name="VerifMergeCreateFile", bounds=dict(quick=dict(CALLS=10), thorough=dict(CALLS=12)), opts=dict(unwind=300, workers=8)),
                    dict(name="VerifMergeAppendFile", bounds=dict(quick=dict(CALLS=10), thorough=dict(CALLS=12)), opts=dict(unwind=300, workers=8)),
-                   dict(name="VerifMergeCreateZipFile", bounds=dict(quick=dict(CALLS=10), thorough=dict(CALLS=12)), opts=dict(unwind=300, workers=8))],
+                   dict(name="VerifMergeCreateZipFile", bounds=dict(quick=dict(CALLS=10), thorough=dict(CALLS=12)), opts=dict(unwind=300, workers=8)),
+                   dict(name="VerifWriteContextAbort", pkg=PD, opts=dict(unwind=300, workers=4))],
     ),
     "C05": dict(
         pkg="./pkg/pdfcpu/sanitize",
